@@ -377,7 +377,7 @@ pub const SHARD_HEADER: &str = "From Coq Require Import List ZArith.\nImport Lis
 
 // -------------------------------------------------------------------- generators
 
-pub const STRS_V: [&str; 6] = ["", "x", "ab", "abcd", "abcde", "é"];
+pub const STRS_V: [&str; 7] = ["", "x", "ab", "abcd", "abcde", "é", "abcé"]; // the last one panics in the table normaliser (byte slice inside a character)
 pub const STRS_C: [&str; 7] = ["", "a", "ab", "abc", "abcd", "é", "abé"];
 
 pub fn gen_int(r: &mut Rng) -> Lit {
@@ -507,16 +507,31 @@ pub fn gen_drop_index(r: &mut Rng) -> Op {
     Op::DropIndex(r.below(INDEXES.len() as u64 + 1) as i64)
 }
 
-/// does this literal row come out of coerce_value + the table normaliser unchanged?  (harness-side
-/// classifier only: VARCHAR(4) values longer than 4 bytes are truncated by the table after the
-/// change was recorded; non-ASCII CHAR values are padded by characters and then cut by bytes)
+/// does the table store this literal row differently from what `insert_row` records?  (harness-side
+/// classifier only)  VARCHAR(4) values longer than 4 bytes are truncated by the table after the
+/// change was recorded; a CHAR(3) literal longer than 3 bytes is cut by `coerce_value` on a character
+/// boundary at or below byte 3, which can leave fewer than 3 characters that the table then pads
 pub fn lit_row_normalised(t: i64, row: &[Lit]) -> bool {
     if t != 0 || row.len() != 5 {
         return false;
     }
     let v_long = matches!(&row[3], Lit::Str(s) if s.len() > 4);
-    let c_nonascii = matches!(&row[4], Lit::Str(s) if !s.is_ascii());
-    v_long || c_nonascii
+    let c_changed = match &row[4] {
+        Lit::Str(s) => {
+            let coerced: String = if s.len() > 3 {
+                let mut end = 3;
+                while !s.is_char_boundary(end) {
+                    end -= 1;
+                }
+                s[..end].to_string()
+            } else {
+                format!("{:3}", s)
+            };
+            coerced.chars().count() != 3
+        }
+        _ => false,
+    };
+    v_long || c_changed
 }
 
 pub fn api_row_normalised(t: i64, row: &[SqlValue]) -> bool {
@@ -524,7 +539,7 @@ pub fn api_row_normalised(t: i64, row: &[SqlValue]) -> bool {
         return false;
     }
     let v_long = matches!(&row[3], SqlValue::Varchar(s) if s.len() > 4);
-    let c_odd = matches!(&row[4], SqlValue::Character(s) if s.len() != 3);
+    let c_odd = matches!(&row[4], SqlValue::Character(s) if s.chars().count() != 3);
     v_long || c_odd
 }
 
